@@ -14,6 +14,8 @@ import sys
 import shutil
 import tempfile
 
+VERIF = os.path.dirname(os.path.dirname(os.path.abspath(__file__)))     # the tree this script lives in (a builder worktree evaluates itself)
+
 prop, d, k = sys.argv[1], sys.argv[2], sys.argv[3]
 checks = [prop]
 tier = "quick"
@@ -83,10 +85,10 @@ try:
                     # private copy of the Coq tree: regenerated constants must not disturb checks running against /repo
                     coqcopy = wt + "_coq"
                     if not os.path.isdir(coqcopy):
-                        sh("rsync -a --exclude cases /verif/coq/ %s/" % coqcopy)
+                        sh("rsync -a --exclude cases %s/coq/ %s/" % (VERIF, coqcopy))
                     os.makedirs(wt + "_out", exist_ok=True)
                     env = "PCFG_REPO=%s PCFG_COQ=%s PCFG_OUT=%s " % (wt, coqcopy, wt + "_out")
-                rc, out = sh("%s./check %s --tier %s" % (env, c, tier), "/verif", 3600)
+                rc, out = sh("%s./check %s --tier %s" % (env, c, tier), VERIF, 3600)
                 lines = [l for l in out.split("\n") if l.startswith("VIOLATION") or l.startswith("KNOWN") or " obligations" in l]
                 res["checks"][c] = {"rc": rc, "lines": [l[:300] for l in lines][:8]}
         finally:
